@@ -186,6 +186,59 @@ pub fn rec_fields(a: &Args, out: &mut Out) {
 
 // ---------------------------------------------------------------- C11: grid-coordinate probes
 
+/// C01 at field level: whatever real input the encoder accepts (in particular inputs far outside the field's range, which
+/// wrap), the pattern it writes is a normal form: decoding it and encoding the result writes the same pattern again.
+/// Inputs: the wrap-around aliases of zero and of the range ends, k = +-m * 2^(w-1) and +-m * 2^w (+-1), m = 1..6.
+pub fn rec_fieldnf(_a: &Args, out: &mut Out) {
+    for f in field_table().iter() {
+        let probe = match f.probe {
+            Some(p) => p,
+            None => continue,
+        };
+        let w = f.w as u32;
+        if w >= 62 {
+            continue;
+        }
+        let mut ks: Vec<i64> = vec![0, 1, -1];
+        for m in 1..=6i64 {
+            for base in [m << (w - 1), m << w] {
+                for d in [-1i64, 0, 1] {
+                    ks.push(base + d);
+                    ks.push(-(base + d));
+                }
+            }
+        }
+        for sh in [w + 3, w + 8, 40, 52] {
+            if sh < 62 {
+                ks.push(1i64 << sh);
+                ks.push(-(1i64 << sh));
+                ks.push((1i64 << sh) + (1i64 << (w - 1)));
+                ks.push(-((1i64 << sh) + (1i64 << (w - 1))));
+            }
+        }
+        for k in ks {
+            let pr = match guarded(|| probe(k, 0.0)) {
+                Ok(p) => p,
+                Err(p) => {
+                    out.emit(json!({"ev": "FieldNf", "id": f.id, "w": f.w, "k": k.to_string(), "panic": p, "enc_err": false, "p": [], "q": [], "rt_err": false}));
+                    continue;
+                }
+            };
+            if pr.enc_err {
+                out.emit(json!({"ev": "FieldNf", "id": f.id, "w": f.w, "k": k.to_string(), "panic": "", "enc_err": true, "p": [], "q": [], "rt_err": false}));
+                continue;
+            }
+            let mask = if f.w == 64 { u64::MAX } else { (1u64 << f.w) - 1 };
+            let raw = pr.raw & mask;
+            match guarded(|| (f.rt)(raw)) {
+                Ok(o) => out.emit(json!({"ev": "FieldNf", "id": f.id, "w": f.w, "k": k.to_string(), "panic": "", "enc_err": false, "p": pat_bits(raw, f.w), "q": pat_bits(o.q, f.w),
+                    "rt_err": o.dec_err || o.enc_err})),
+                Err(p) => out.emit(json!({"ev": "FieldNf", "id": f.id, "w": f.w, "k": k.to_string(), "panic": p, "enc_err": false, "p": pat_bits(raw, f.w), "q": [], "rt_err": false})),
+            }
+        }
+    }
+}
+
 pub fn rec_probes(a: &Args, out: &mut Out) {
     let table = field_table();
     let per_field = a.num("per_field", 40) as usize;
